@@ -310,6 +310,8 @@ def rule_R06_3(ctx):
                         and d.declared not in ("std::ops::Try::branch",
                                                "std::ops::FromResidual::from_residual"):
                     users.append(d)
+        if not users:
+            users = ops.forward_users(g, c)
         names = sorted(set(u.res for u in users))
         r.inst("%s: operator result consumed by %s" % (g.path, names))
         import anchors
